@@ -6,7 +6,7 @@ Property theorems only; helpers are in `Sqfs/Proofs/HardLink.lean` (hard links) 
 `resolve_link`, see fixes/C07-hardlink-cycle.patch; the shipped loop is `loopCur`, refuted in
 `Sqfs/Witness/C07.lean`).
 -/
-import Sqfs.Proofs.HardLink
+import Sqfs.Proofs.HardLinkTree
 namespace Sqfs.C07
 open Sqfs.HardLink
 
@@ -45,7 +45,108 @@ theorem resolve_ok_targets (g : Graph) (fuel : Nat) (links : List Nat) (counts :
   | none => rw [hr] at hs; cases hs
   | some t => exact ⟨t, rfl, hres n t hr⟩
 
+/--
+**Exactness.**  `g` is any well-formed graph (link targets that resolve, resolve inside the graph),
+`links` any list of node indices that contains every hard link of `g` (`fs->links_unresolved`, in any
+order).  Then the repaired `fstree_resolve_hard_links`, run with `links.length + 2` loop iterations per
+link, always finishes, and
+
+* if it succeeds, every listed link is resolved to the node at which its chain of links *ends*
+  (`EndsAt`), and that node is neither a link nor a directory;
+* if it fails on link `n` with `errno = e`, every link before `n` on the list has a proper end, and
+  `e` is the answer the specification `Expected` prescribes for `n`: `EPERM` iff the chain ends at a
+  directory, `ENOENT`/`ENOTDIR` iff it reaches a name that does not resolve (with that errno),
+  `EMLINK` iff it runs into a cycle (through the start or not) or the target's `link_count` is saturated.
+
+Together with `expected_unique` ("at most one answer meets the specification") this is "reports
+`EMLINK`/`EPERM`/`ENOENT` *exactly* on cyclic/directory/dangling targets, otherwise resolves every
+link to a non-link target".
+-/
+theorem resolve_links_exact (g : Graph) (hwf : WF g) (links : List Nat)
+    (hall : ∀ k tg, g[k]? = some (.hlink tg) → k ∈ links) (hin : ∀ n ∈ links, n < g.length) (counts : Nat → Nat) :
+    match resolveAllFix g (links.length + 2) (St.init counts) links with
+    | .ok st => ∀ n ∈ links, ∃ t, st.resolved n = some t ∧ EndsAt g n t ∧ g[t]? = some .other
+    | .err n e => ∃ pre post cnt, links = pre ++ n :: post ∧
+        (∀ m ∈ pre, ∃ t, EndsAt g m t ∧ g[t]? = some .other) ∧ Expected g cnt n (none, some e)
+    | .outOfFuel => False
+    | .badIndex => False := by
+  have hc0 : Cons g links (St.init counts).resolved :=
+    ⟨(fun k t h => by cases h), fun k tg hk _ => hall k tg hk⟩
+  have h := resolveAll_sound g hwf links (links.length + 2) (Nat.le_refl _) links (St.init counts) hc0 hin
+  unfold resolveAllFix
+  cases hr : resolveAllWith g (fun res n => loopFix g res n links.length (links.length + 2) n 0) (St.init counts) links with
+  | outOfFuel => rw [hr] at h; exact h
+  | badIndex => rw [hr] at h; exact h
+  | err n e => rw [hr] at h; exact h
+  | ok st =>
+    rw [hr] at h
+    obtain ⟨hc, _, hsome⟩ := h
+    have ht := resolve_ok_targets g (links.length + 2) links counts st hr
+    intro n hn
+    obtain ⟨t, h1, h2⟩ := ht n hn
+    exact ⟨t, h1, hc.ends n t h1, h2⟩
+
+/--
+The same, for exactly what the driver/harness run: any tree state of the model of
+`fstree_add_generic` (`t ≠ []`: there is a root), its graph `Tree.toGraph t` and its
+`links_unresolved` list `Tree.links t`.  No further hypothesis.
+-/
+theorem resolve_tree_exact (t : Tree.T) (hne : t ≠ []) (counts : Nat → Nat) :
+    match resolveAllFix (Tree.toGraph t) ((Tree.links t).length + 2) (St.init counts) (Tree.links t) with
+    | .ok st => ∀ n ∈ Tree.links t, ∃ tg, st.resolved n = some tg ∧ EndsAt (Tree.toGraph t) n tg ∧
+        (Tree.toGraph t)[tg]? = some .other
+    | .err n e => ∃ pre post cnt, Tree.links t = pre ++ n :: post ∧
+        (∀ m ∈ pre, ∃ tg, EndsAt (Tree.toGraph t) m tg ∧ (Tree.toGraph t)[tg]? = some .other) ∧
+        Expected (Tree.toGraph t) cnt n (none, some e)
+    | .outOfFuel => False
+    | .badIndex => False :=
+  resolve_links_exact (Tree.toGraph t) (Tree.toGraph_wf t hne) (Tree.links t) (Tree.links_complete t)
+    (Tree.links_lt t) counts
+
+/-- the specification admits at most one answer per link (so `resolve_links_exact` pins the answer down) -/
+theorem expected_unique (g : Graph) (cnt : Nat → Nat) (n : Nat) (o o' : Option Nat × Option Errno)
+    (h : Expected g cnt n o) (h' : Expected g cnt n o') : o = o' := h.unique h'
+
+/-- the three fates of a chain of links exclude one another -/
+theorem chain_fates_exclusive (g : Graph) (i : Nat) :
+    (∀ t, EndsAt g i t → ¬ Cyclic g i) ∧ (∀ t e, EndsAt g i t → ¬ Dangling g i e) ∧
+    (∀ e, Dangling g i e → ¬ Cyclic g i) :=
+  ⟨fun _ h => h.not_cyclic, fun _ _ h => h.not_dangling, fun _ h => h.not_cyclic⟩
+
+/--
+The executable classifier `specClass` (used by the check to judge the answers of the *real* code)
+decides the relational specification: following at most `|g| + 1` links from any node of a
+well-formed graph tells which of the three fates holds.
+-/
+theorem specClass_sound (g : Graph) (hwf : WF g) (i : Nat) (hi : i < g.length) :
+    match specClass g i with
+    | .endsAt t => EndsAt g i t
+    | .dangling e => Dangling g i e
+    | .cyclic => Cyclic g i
+    | .escapes => False :=
+  classify_sound g hwf i (g.length + 1) i [] (.refl i) (Or.inr List.nodup_nil) (by simp) (by simp) (by simp) hi
+
 /-! ### non-vacuity -/
+
+-- a well-formed graph with all three fates: 1 = file, 2 -> 1, 3 -> 4, 4 -> 3 (cycle), 5 -> 3 (runs into it), 6 dangling
+example : WF [.dir, .other, .hlink (.found 1), .hlink (.found 4), .hlink (.found 3), .hlink (.found 3),
+    .hlink (.fail .ENOENT)] := by
+  intro i j h
+  unfold Step at h
+  match i, h with
+  | 0, h => cases h
+  | 1, h => cases h
+  | 2, h => cases h; decide
+  | 3, h => cases h; decide
+  | 4, h => cases h; decide
+  | 5, h => cases h; decide
+  | 6, h => cases h
+  | n + 7, h => simp at h
+example : (specClass [.dir, .other, .hlink (.found 1), .hlink (.found 4), .hlink (.found 3), .hlink (.found 3),
+    .hlink (.fail .ENOENT)]) 2 = .endsAt 1 := by decide
+example : (specClass [.dir, .other, .hlink (.found 1), .hlink (.found 4), .hlink (.found 3), .hlink (.found 3),
+    .hlink (.fail .ENOENT)]) 5 = .cyclic := by decide
+
 
 -- root, file `b`, `c -> b`, `a -> c`, dir `d`, `d/e -> a`: all three links end at `b` (link_count 4)
 example : (resolveAllFix [.dir, .other, .hlink (.found 1), .hlink (.found 2), .dir, .hlink (.found 3)] 5
